@@ -312,8 +312,16 @@ impl PartitionReplicatorActor {
                     append.first_partition_sequence,
                     append.last_partition_sequence,
                 );
-                self.buffered_writes
-                    .progress_to(append.last_partition_sequence + 1);
+                // Writes buffered inside the range this append covered can never be
+                // applied anymore
+                for (_, stale_write) in self
+                    .buffered_writes
+                    .progress_to(append.last_partition_sequence + 1)
+                {
+                    for reply in stale_write.reply_senders {
+                        reply.tx.send(Err(WriteError::StaleWrite));
+                    }
+                }
 
                 // Buffer events for potential broadcast when confirmed
                 // Convert partition sequences to 1-indexed versions for the confirmation system
